@@ -494,6 +494,12 @@ func (s *nhState) apply(op nhOp, check bool, hist []nhOp) {
 		}
 	case "unexport":
 		s.e.nfs.Unexport()
+		// ... and exported again: Export() clears the closed mark before it starts a listener;
+		// this harness drives HandleCall directly, so it does the same without a listener
+		// (the real Export / Unexport / Export path over TCP is C28's)
+		s.e.nfs.policyRWMu.Lock()
+		s.e.nfs.closed = false
+		s.e.nfs.policyRWMu.Unlock()
 	}
 	for _, is := range issued {
 		s.known[is.path] = is.h
